@@ -212,8 +212,8 @@ CHECKS['C03'] = dict(
     note='Trusted: CrossHair models. Out and stated: arbitrary source strings beyond lexeme bodies (the tokenizer regex is out of reach '
          'for symbolic text), documents as context beyond the edge-source table, comment bodies and braced URIs only as bug-hunting. A table of 37 '
          'edge sources (failed =>, literals beyond conversion limits, huge doubles, language tags, occurrence indicators, function conversion), '
-         '13 malformed collation strings and 28 lookup sources are included. Known findings C03-recursion-depth and C03-uncaught-exceptions-listed '
-         '(51 sources, listed input by input, that still raise a non-ElementPathError exception: the property does NOT hold for them).',
+         '13 malformed collation strings and 28 lookup sources are included. Known finding C03-recursion-depth. The 51 sources of a last sweep of the '
+         'baseline report (integers beyond the double range, untyped arguments, assertions) are a main obligation after their repairs.',
     technique='SMT-based symbolic execution (CrossHair/z3): exception-freedom of enumerated templates on symbolic arguments; symbolic lexeme bodies',
     design='DESIGN.md §4 C03')
 CHECKS['C17'] = dict(
